@@ -118,6 +118,10 @@ pub fn gen_chunks(g: &mut G, total: usize) -> (Vec<ChunkSpec>, Vec<String>) {
             1 => format!("{:X}", n),
             2 => format!("000{:x}", n),
             3 => format!("{:x};ext=val", n),
+            // (no draw) quoted values with quoted pairs inside: an escaped quote, and a value that ends in an escaped
+            // backslash right before the closing quote
+            4 if n % 3 == 1 => format!("{:X};dir=\"C:\\\\tmp\\\\\"", n),
+            4 if n % 3 == 2 => format!("{:x};say=\"a \\\"b\\\" c\";k", n),
             4 => format!("{:X};a;b=\"q\"", n),
             // obs-text inside a quoted extension value is legal (RFC 9110 quoted-string)
             6 => format!("{:x};note=\"caf\u{e9}\"", n),
